@@ -945,6 +945,40 @@ class PyRef:
                        m['cid'] if any(c for _n, _s, c in attrs) else None))
         return {'cond': 'OK', 'untagged': un}
 
+    # -- another client changes a mailbox (plain state change, nothing is reported here)
+    def interfere(self, op: dict, names: list[str]) -> None:
+        box = names[op['box']]
+        b = self.boxes[box]
+        if op['k'] in ('wstore', 'wexpunge'):
+            # the writer selects the mailbox read-write: it is given the stored \Recent marks
+            for m in b['msgs'].values():
+                m['recent'] = False
+        if op['k'] == 'wstore':
+            named = {canon_flag(f) for f in op['flags']} & (b['perm'] - {b'\\Recent'})
+            for u in op['uids']:
+                m = b['msgs'].get(u)
+                if m is None:
+                    continue
+                if op['op'] == 'replace':
+                    m['flags'] = set(named)
+                elif op['op'] == 'add':
+                    m['flags'] |= named
+                else:
+                    m['flags'] -= named
+        elif op['k'] == 'wexpunge':
+            for u in [u for u, m in b['msgs'].items() if b'\\Deleted' in m['flags']]:
+                del b['msgs'][u]
+                if self.sel and self.sel[0] == box:
+                    self.recent.discard(u)
+        elif op['k'] == 'wappend':
+            mine = self.sel
+            if self.kind == 'maildir':
+                # a maildir session only knows the selections of its own connection: what another
+                # connection delivers is stored \\Recent (file in new/), whoever has it selected
+                self.sel = None
+            self._deliver(box, self._storable(box, op['flags']), op['date'], op['cid'])
+            self.sel = mine
+
     def snapshot(self) -> list[dict]:
         out = []
         for name, b in self.boxes.items():
@@ -1061,3 +1095,69 @@ C10_WEIGHTS = {'select': 9, 'append': 14, 'store': 24, 'expunge': 7, 'uidexpunge
                'copy': 10, 'move': 9, 'fetch': 15, 'close': 4}
 C12_WEIGHTS = {'append': 12, 'store': 22, 'expunge': 9, 'uidexpunge': 7,
                'copy': 13, 'move': 15, 'fetch': 18, 'close': 4}
+
+
+# ------------------------------------------------------- interfering writer
+def gen_wop(rng, env: Env, ref: PyRef, nextcid) -> dict:
+    """a change made by ANOTHER connection: flags, a delivery, or an expunge"""
+    writable = [i for i, n in enumerate(env.real) if not ref.boxes[n]['ro']]
+    box = rng.choice(writable)
+    if ref.sel and not ref.boxes[ref.sel[0]]['ro'] and rng.random() < 0.75:
+        box = env.names.index(ref.sel[0])
+    uids = ref._uids(env.names[box])
+    r = rng.random()
+    if r < 0.55 and uids:
+        fl, sp = gen_flags(rng, env.kind, allow_recent=False)
+        if rng.random() < 0.6:
+            fl, sp = fl + [b'\\Deleted'], sp + [b'\\Deleted']
+        return {'k': 'wstore', 'box': box, 'uids': sorted(rng.sample(uids, rng.randint(1, min(3, len(uids))))),
+                'op': rng.choice(['add', 'add', 'delete', 'delete', 'replace']),
+                'flags': fl, 'spelled': sp}
+    if r < 0.8 or not uids:
+        fl, sp = gen_flags(rng, env.kind, allow_recent=False)
+        # (never \\Deleted: whether a session's EXPUNGE/CLOSE removes a message it has not been
+        # told about yet is not determined by the RFC)
+        keep = [i for i, f in enumerate(fl) if f != b'\\Deleted']
+        fl, sp = [fl[i] for i in keep], [sp[i] for i in keep]
+        return {'k': 'wappend', 'box': box, 'flags': fl, 'spelled': sp,
+                'date': rng.randrange(0, 2_000_000_000), 'cid': nextcid()}
+    return {'k': 'wexpunge', 'box': box}
+
+
+def render_wop(op: dict, names: list[str]) -> list[bytes]:
+    """the writer's command lines (it never keeps a mailbox selected)"""
+    nm = names[op['box']].encode()
+    if op['k'] == 'wappend':
+        lit = content(op['cid'])
+        return [b'APPEND ' + nm + b' (' + b' '.join(op['spelled']) + b') '
+                + render_date(op['date']) + b' {%d}\r\n' % len(lit) + lit]
+    if op['k'] == 'wexpunge':
+        return [b'SELECT ' + nm, b'EXPUNGE', b'SELECT Nope']
+    item = {'replace': b'', 'add': b'+', 'delete': b'-'}[op['op']] + b'FLAGS.SILENT'
+    return [b'SELECT ' + nm,
+            b'UID STORE ' + b','.join(b'%d' % u for u in op['uids']) + b' ' + item
+            + b' (' + b' '.join(op['spelled']) + b')',
+            b'SELECT Nope']
+
+
+def gen_uid_cmd(rng, env: Env, ref: PyRef, nextcid, known=None) -> dict:
+    """a command whose meaning does not depend on what the session has been told
+    so far: no sequence numbers, no '*', only UIDs the session knows (some may
+    have been expunged by the other connection meanwhile)"""
+    uids = list(known) if known else []
+    ss = sorted(rng.sample(uids, rng.randint(1, min(3, len(uids))))) if uids else []
+    k = rng.choice(['expunge', 'expunge', 'close', 'uidexpunge', 'store', 'fetch', 'copy', 'move']
+                   if uids else ['expunge', 'expunge', 'close'])
+    if k == 'expunge':
+        return {'k': 'expunge', 'ss': None}
+    if k == 'close':
+        return {'k': 'close'}
+    if k == 'uidexpunge':
+        return {'k': 'expunge', 'ss': ss}
+    if k == 'store':
+        fl, sp = gen_flags(rng, env.kind)
+        return {'k': 'store', 'uid': True, 'ss': ss, 'op': rng.choice(['add', 'delete', 'replace']),
+                'silent': rng.random() < 0.5, 'flags': fl, 'spelled': sp}
+    if k == 'fetch':
+        return {'k': 'fetch', 'uid': True, 'ss': ss, 'attrs': rng.randrange(len(FETCH_MENU))}
+    return {'k': k, 'uid': True, 'ss': ss, 'dest': rng.randrange(3)}
